@@ -26,7 +26,13 @@ VARIES = (
     "Series, bool/int/str/float with any pos_label; target/alpha arrays come in Fortran order and with 1e5 entries; objects of "
     "user subclasses; one class packed 1e-12 apart inside a gap of the other; 1e5-1e16 easy samples; group names given as "
     "subsets/permutations, 64-bit ids, absent classes passed as []; Unicode look-alike strings, named row indexes; smoothing "
-    "configurations; unused configuration fields set; integer-typed thresholds and parameters everywhere")
+    "configurations; unused configuration fields set; integer-typed thresholds and parameters everywhere; targets, alphas and "
+    "thresholds held as float16/float32/long double scalars and arrays; flags given as numpy.bool_/0/1; labels that are close "
+    "but different floats, DocLabel members, 64-bit ids of mixed signedness; floating-point warnings escalated to errors; "
+    "metrics that return one re-used buffer or are named like methods; failing calls inside call sequences; user subclasses "
+    "with their own constructor or overridden rates; curves of 65536+ points and counts at the top of narrow integer types; "
+    "thousands of scores 1e-12 apart inside gaps of 1e5+ other scores; the largest finite float as score; proportion sampling "
+    "checked statistically")
 for pid, p in props.items():
     wt = f"{root}/{pid}"
     if not os.path.exists(wt):
@@ -39,7 +45,7 @@ for pid, p in props.items():
             prev.append(f"- {os.path.basename(d.rstrip('/'))}: {txt[:260]}")
     prevtxt = "\n".join(prev) if prev else "(none)"
     low = pid.lower()
-    txt = f"""You are helping to evaluate a verification effort for the Python library `score_analysis` (martinsbruveris/score-analysis: binary/multiclass classification metrics, threshold setting, EER, AUC, ROC curves, bootstrap confidence intervals). Your job is to act as a realistic source of *regressions*: produce TWO independent small changes to the library, each of which breaks the semantic property below while the library still imports and its existing test-suite still passes. This is a SIXTH round. Five earlier rounds produced the changes summarised at the end, and the verification effort caught all of them in the end; by now it varies {VARIES}. Find something it still does not look at. Take your time to read the code the property depends on line by line and look for an input condition *inside the stated domain* that none of the above would produce, an interaction between two functions, or a semantic slip (wrong one of two similar quantities, off-by-one in a rarely taken branch, a condition that is slightly too wide or too narrow) that only shows for a structured kind of input.
+    txt = f"""You are helping to evaluate a verification effort for the Python library `score_analysis` (martinsbruveris/score-analysis: binary/multiclass classification metrics, threshold setting, EER, AUC, ROC curves, bootstrap confidence intervals). Your job is to act as a realistic source of *regressions*: produce TWO independent small changes to the library, each of which breaks the semantic property below while the library still imports and its existing test-suite still passes. This is a SEVENTH round. Six earlier rounds produced the changes summarised at the end, and the verification effort caught all of them in the end; by now it varies {VARIES}. Find something it still does not look at. Take your time to read the code the property depends on line by line and look for an input condition *inside the stated domain* that none of the above would produce, an interaction between two functions, or a semantic slip (wrong one of two similar quantities, off-by-one in a rarely taken branch, a condition that is slightly too wide or too narrow) that only shows for a structured kind of input.
 
 ## The property ({p['id']}: {p['title']})
 Statement: {p['statement']}
@@ -68,6 +74,8 @@ Procedure for each change: make the edit, run the test-suite, run the demo (must
 
 ## Changes from the earlier rounds (do NOT repeat these mechanisms or triggers)
 {prevtxt}
+
+If, while exploring, you come across inputs inside the stated domain on which the UNMODIFIED library already violates the property, do not use them for your demos, but describe them precisely (a minimal reproduction) at the end of your final summary.
 
 When done, reply with a short summary: for each change the file/function touched, what triggers the violation, and confirmation of the runs (tests pass with change; demo exit 1 with change; demo exit 0 without)."""
     open(f"{root}/prompt_{pid}.txt", "w").write(txt)
